@@ -205,9 +205,11 @@ class SyncedList(SyncedCollection, MutableSequence):
                 with self._load_and_save:
                     self._update(data, _validate=True)
                 return
-            self._update(data)
-            with self._thread_lock:
-                self._save()
+            # At the root no load is needed, but the data must only change
+            # while the locks are held, in the same order as for other mutators.
+            self._validate(data)
+            with self._LoadSaveType(self, load=False):
+                self._update(data, _validate=True)
         else:
             raise ValueError(
                 "Unsupported type: {}. The data must be a non-string sequence or None.".format(
@@ -264,9 +266,10 @@ class SyncedList(SyncedCollection, MutableSequence):
             with self._load_and_save:
                 self._data = []
             return
-        self._data = []
-        with self._thread_lock:
-            self._save()
+        # At the root no load is needed, but the data must only change
+        # while the locks are held, in the same order as for other mutators.
+        with self._LoadSaveType(self, load=False):
+            self._data = []
 
     def __lt__(self, other):
         if isinstance(other, type(self)):
